@@ -89,12 +89,7 @@ InvC13 ==
 InvC13model ==
     IsRun =>
         LET e == Last  m == ModelOutcome(pre, e) IN
-        (SupportedRun(m, e) /\ Diff(m, e.out) = "") =>
-            \/ m.c13 = <<>>
-            \* known finding: the values missed were restored from the peer's own previous data into generations the
-            \* fold's cursor had passed; anything else missed is reported without the tag
-            \/ ((\A k \in 1..Len(m.c13) : m.c13[k].fromPrev) /\ PrintT(<<"VIOLATION", "C13", e.hid, e.step, "fold-missed-value">>))
-            \/ PrintT(<<"VIOLATION", "C13", e.hid, e.step>>)
+        (SupportedRun(m, e) /\ Diff(m, e.out) = "") => Report("C13", m.c13 = <<>>)
 \* C12: relative generation order of the stream values, against the previous data of the peer (model-free) and
 \* against the model (same relative order of every pair of stream values, whatever the numbers)
 StreamVals(tr) == {i \in 1..Len(tr) : tr[i].k = "exec" /\ tr[i].vt = "stream"}
